@@ -28,7 +28,7 @@ func runC14(w *World, r *Report, tier string) {
 
 	sasl := w.Func("xmpp.authSASL")
 	plain := w.Func("xmpp.authPlain")
-	supp := w.Func("xmpp.isSupportedMech")
+	supp := w.FuncOpt("xmpp.isSupportedMech") // may have been inlined: the choice is then judged by the equality test itself
 	r.Anchor("xmpp.authSASL")
 	r.Anchor("xmpp.authPlain")
 
@@ -47,7 +47,32 @@ func runC14(w *World, r *Report, tier string) {
 		return strings.HasSuffix(nfv, ".mechanisms") && (strings.Contains(nfv, "param:"+credP.Name()) || strings.Contains(nfv, "alloc:"+credP.Name()))
 	}
 	isAdvertised := func(nfv string) bool {
-		return strings.HasSuffix(nfv, ".Mechanisms.Mechanism") && (strings.Contains(nfv, "param:"+featP.Name()) || strings.Contains(nfv, "alloc:"+featP.Name()))
+		if strings.HasSuffix(nfv, ".Mechanisms.Mechanism") && (strings.Contains(nfv, "param:"+featP.Name()) || strings.Contains(nfv, "alloc:"+featP.Name())) {
+			return true
+		}
+		// the list itself is passed in: every caller must pass the session's advertised mechanisms
+		for _, p := range sasl.Params {
+			if nfv != "param:"+p.Name() {
+				continue
+			}
+			idx := -1
+			for i, q := range sasl.Params {
+				if q == p {
+					idx = i
+				}
+			}
+			sites := w.callSitesOf(sasl)
+			if len(sites) == 0 {
+				return false
+			}
+			for _, cs := range sites {
+				if idx >= len(cs.Call.Args) || !strings.HasSuffix(w.nf(cs.Call.Args[idx], 0), "Features.Mechanisms.Mechanism") {
+					return false
+				}
+			}
+			return true
+		}
+		return false
 	}
 	switchConsts := map[string]bool{}
 	badProv, badDisp := "", ""
@@ -82,7 +107,27 @@ func runC14(w *World, r *Report, tier string) {
 			return a0 == mech && isAdvertised(w.nfOn(call.Call.Args[1], path))
 		})
 		if !supported {
-			badProv = "a credential mechanism can be chosen without isSupportedMech(mechanism, advertised list) having returned true for it"
+			// the membership test written out: mech == advertised[j] on this path
+			supported = pathAsserts(path, func(c ssa.Value, truth bool) bool {
+				bo, isB := c.(*ssa.BinOp)
+				if !isB || (bo.Op != token.EQL && bo.Op != token.NEQ) || (bo.Op == token.EQL) != truth {
+					return false
+				}
+				for _, pr := range [][2]ssa.Value{{bo.X, bo.Y}, {bo.Y, bo.X}} {
+					if !sameValue(valueOnPath(rvI(pr[0], curEdgeIdx), path), mech) {
+						continue
+					}
+					if u, ok := pr[1].(*ssa.UnOp); ok {
+						if ia2, ok := u.X.(*ssa.IndexAddr); ok && isAdvertised(w.nfOn(ia2.X, path)) {
+							return true
+						}
+					}
+				}
+				return false
+			})
+		}
+		if !supported {
+			badProv = "a credential mechanism can be chosen without having been found equal to an element of the advertised list (isSupportedMech(mechanism, advertised) or the comparison itself)"
 		}
 		// dispatch: the path asserts mech == one constant
 		got := ""
@@ -105,9 +150,25 @@ func runC14(w *World, r *Report, tier string) {
 				got = s
 			}
 		})
-		if got == "" {
+		// dispatch through a constant table: the path asserts that mech is one of its keys
+		viaTable := false
+		pathEdges(path, func(b *ssa.BasicBlock, succ int) {
+			c, truth, ok := edgeAssertion(b, succ)
+			if !ok || !truth {
+				return
+			}
+			if ex, isEx := c.(*ssa.Extract); isEx && ex.Index == 1 {
+				if t, lk := w.tableLookup(ex.Tuple); t != nil && valueOnPath(rvI(lk.Index, curEdgeIdx), path) == mech {
+					viaTable = true
+					for _, e := range t {
+						switchConsts[e.Key] = true
+					}
+				}
+			}
+		})
+		if got == "" && !viaTable {
 			badDisp = "authPlain is reachable without the chosen mechanism being equal to one of the dispatch constants (e.g. with an unknown mechanism)"
-		} else {
+		} else if got != "" {
 			switchConsts[got] = true
 		}
 	})
@@ -118,7 +179,7 @@ func runC14(w *World, r *Report, tier string) {
 		r.Check(badDisp == "" && nReach > 0, "O2", "xmpp.authSASL#dispatch", w.ipos(ap), badDisp, fmt.Sprintf("reachable only through mech == %v", keys(switchConsts)))
 	}
 	// isSupportedMech
-	{
+	if supp != nil {
 		eq := edgesAsserting(supp, func(cv ssa.Value, truth bool) bool {
 			bo, ok := cv.(*ssa.BinOp)
 			if !ok || bo.Op != token.EQL && bo.Op != token.NEQ {
@@ -286,11 +347,11 @@ func runC14(w *World, r *Report, tier string) {
 					r.Undecided("O4", "xmpp.authPlain#encoding", w.ipos(al), why)
 				} else {
 					r.Check(enc == "base64.StdEncoding", "O4", "xmpp.authPlain#encoding", w.ipos(al), "the payload is encoded with "+enc+", not base64.StdEncoding", "base64.StdEncoding")
-					s, isConv := bytesOfString(src)
+					rawAtoms, isConv := byteAtoms(src)
 					if !isConv {
-						r.Undecided("O4", "xmpp.authPlain#payload", w.ipos(al), "the encoded bytes are not []byte(string)")
+						r.Undecided("O4", "xmpp.authPlain#payload", w.ipos(al), "the encoded bytes are neither []byte(string expression) nor a buffer built by appends from empty")
 					} else {
-						as := mergeConstAtoms(strAtoms(s))
+						as := mergeConstAtoms(rawAtoms)
 						ok := len(as) == 4 && as[0].IsC && as[0].Const == "\x00" && origin(as[1].Val) == ssa.Value(plain.Params[3]) && as[2].IsC && as[2].Const == "\x00" && origin(as[3].Val) == ssa.Value(plain.Params[4])
 						r.Check(ok, "O4", "xmpp.authPlain#payload", w.ipos(al), "the authentication payload is "+atomsString(w, as)+`, not ["\x00", user, "\x00", secret]`, `["\x00", user, "\x00", secret]`)
 					}
@@ -325,7 +386,7 @@ func runC14(w *World, r *Report, tier string) {
 		} else {
 			a := sc[0].Common().Args
 			f2, f3, f4 := fieldNames(fieldPath(origin(a[2]))), fieldNames(fieldPath(origin(a[3]))), fieldNames(fieldPath(origin(a[4])))
-			r.Check(f3 == "parsedJid.Node" && f4 == "Credential" && f2 == "Features", "O4", "xmpp.(*Session).auth→authSASL#args", w.ipos(sc[0]), "authSASL is not given (session features, local part of the configured JID, configured credential): "+f2+", "+f3+", "+f4, "authSASL(…, s.Features, o.parsedJid.Node, o.Credential)")
+			r.Check(f3 == "parsedJid.Node" && f4 == "Credential" && (f2 == "Features" || f2 == "Features.Mechanisms.Mechanism"), "O4", "xmpp.(*Session).auth→authSASL#args", w.ipos(sc[0]), "authSASL is not given (session features, local part of the configured JID, configured credential): "+f2+", "+f3+", "+f4, "authSASL(…, s.Features, o.parsedJid.Node, o.Credential)")
 		}
 	}
 
